@@ -561,12 +561,17 @@ def run_case(files, model, load_order, subset, scale, workdir, keep=None):
         loaded = [m for m in model["mols"] if m["name"] in load_order]
         if len(mols) != len(loaded):
             raise Harness(f"System yields {len(mols)} molecules, the generated file has {len(loaded)} of the loaded species")
-        for sm, gm in zip(mols, loaded):
-            if sm.name != gm["name"] or list(sm.resids) != gm["resids"] or \
-                    np.abs(sm.atoms_positions - gm["xyz"]).max() > 1e-9:
-                raise Harness(f"System molecule {sm.name} {sm.resids} does not match the generated molecule {gm['name']} {gm['resids']}")
+        # the System may hand its molecules out in another order than the file (that would be a defect of the System, C11, and shows
+        # below as a violation of 'in input-file order'): pair them with the generated molecules by identity, not by position
+        by_id = {(m_.name, tuple(m_.resids)): m_ for m_ in mols}
+        paired = []
+        for gm in loaded:
+            sm = by_id.get((gm["name"], tuple(gm["resids"])))
+            if sm is None or np.abs(sm.atoms_positions - gm["xyz"]).max() > 1e-9:
+                raise Harness(f"the System has no molecule matching the generated molecule {gm['name']} {gm['resids']}")
+            paired.append(sm)
         expected = []
-        for sm, gm in zip(mols, loaded):
+        for sm, gm in zip(paired, loaded):
             if gm["name"] not in subset:
                 continue
             if model["targets"][gm["name"]]["n_ref"] >= 3:
